@@ -1048,7 +1048,7 @@ func TestKnownCrashInCheckpointRestore(t *testing.T) {
 	known.Probe(t, findingRestoreCrash, func() (bool, string) {
 		ops := simpleOps(45, func(i int) Op { return Op{[]string{"set", table + ":ak0", fmt.Sprintf("a%d", i)}} })
 		for _, eng := range []string{"pebble", "rocksdb"} {
-			for k := 1; k <= 6; k++ {
+			for k := 1; k <= 9; k++ {
 				c := &Case{Cfg: defaultCfg(eng), Streams: [3][]Op{ops, nil, nil},
 					Rounds: []Round{
 						{Crash: CrashSpec{Kind: "kill", AfterAcks: 45}, Upto: [3]int{45, 0, 0}},
